@@ -111,6 +111,13 @@ func nativeReplay(repo, hdir, work string, paths []string, race bool) (map[strin
 			ov["Replace"][filepath.Join(repo, e.Name())] = filepath.Join(hdir, e.Name())
 		}
 	}
+	if rents, err := os.ReadDir(filepath.Join(hdir, "..", "ref", "ice")); err == nil {
+		for _, e := range rents {
+			if strings.HasSuffix(e.Name(), ".go") {
+				ov["Replace"][filepath.Join(repo, "zz_vp_ref", e.Name())] = filepath.Join(hdir, "..", "ref", "ice", e.Name())
+			}
+		}
+	}
 	os.MkdirAll(work, 0o755)
 	ovPath := filepath.Join(work, fmt.Sprintf("overlay-%d.json", os.Getpid()))
 	b, _ := json.Marshal(ov)
